@@ -119,6 +119,48 @@ def main(run):
             else:
                 distinct.add(("pinhole-lowq", fname, srel))
                 run.sample(dict(kind="pinhole-lowq", family=fname, sigma_rel=srel, h=hs, errors=errs))
+    # ------------------------------------------------------------------ data not stored in increasing q
+    # (descending scans, merged banks): the documented integrals do not care about storage order; the data span
+    # more than a factor 50 in q so that any cutoff derived from "the first point" instead of the smallest bites
+    stats["unsorted"] = 0
+    for fname, f in FAMILIES.items():
+        base = np.array([0.24, 0.09, 0.03, 0.011, 0.004]) * np.array([rng.uniform(0.9, 1.1) for _ in range(5)])
+        for order in ("descending", "shuffled"):
+            q = base.copy()
+            if order == "shuffled":
+                ix = list(range(5)); rng.shuffle(ix)
+                if ix[0] == 4:
+                    ix[0], ix[1] = ix[1], ix[0]
+                q = q[ix]
+            for kind in ("pinhole", "slit-length"):
+                s = 0.1 * q
+                Ls = 0.05
+                ex = []
+                for qi, si in zip(q, s):
+                    if kind == "pinhole":
+                        phi = lambda x: math.exp(-0.5 * ((x - qi) / si) ** 2)
+                        n = quad(phi, qi - 2.5 * si, qi + 3.0 * si, epsabs=0, epsrel=1e-13)[0]
+                        ex.append(quad(lambda x: float(f(abs(x))) * phi(x), qi - 2.5 * si, qi + 3.0 * si, epsabs=0, epsrel=1e-12)[0] / n)
+                    else:
+                        ex.append(quad(lambda u: float(f(math.sqrt(qi * qi + u * u))), 0, Ls, epsabs=0, epsrel=1e-12)[0] / Ls)
+                ex = np.array(ex)
+                errs = []
+                for n in (300, 1200, 4800):
+                    qc = np.unique(np.concatenate([np.geomspace(0.5 * q.min(), 1.6 * q.max() + Ls, n), q]))
+                    r = Pinhole1D(q, s, q_calc=qc) if kind == "pinhole" else Slit1D(q, q_length=Ls, q_calc=qc)
+                    with np.errstate(all="ignore"):
+                        y = r.apply(f(r.q_calc))
+                    e = np.abs(y - ex) / np.maximum(np.abs(ex), 1e-3)
+                    errs.append(float(np.nanmax(e)) if np.all(np.isfinite(y)) else float("inf"))
+                    evals += 1
+                stats["unsorted"] += 1
+                desc = dict(kind="unsorted-" + kind, family=fname, order=order, q=list(map(float, q)), errors=errs, exact=list(map(float, ex)))
+                # geometric grid with ratio r: h/q = ln(1.6 qmax/0.5 qmin)/n; first order in 1/n
+                if not (errs[-1] <= 2e-3 and errs[-1] <= 0.5 * errs[0] + 1e-9):
+                    run.add(Finding("C04:unsorted:%s:%s" % (kind, fname), "%s smearing of %s with the data stored %s: relative errors %s on grids of 300/1200/4800 points do not converge to the documented integral" % (
+                        kind, fname, order, errs), desc))
+                else:
+                    distinct.add(("unsorted", kind, fname, order))
     # ------------------------------------------------------------------ slit
     for fname, f in FAMILIES.items():
         for L_, W_ in ([(0.02, 0.0), (0.2, 0.0), (0.0, 0.01), (0.05, 0.01)] if not thorough else
